@@ -44,7 +44,7 @@ package jerr
 //@   requires[C01,C07] f != nil
 //@   ensures result.File == f && result.Index == i
 //@   ensures imp(i < len(f.content.data), result.Line >= 1 && result.Column >= 1)
-//@   ensures[C07,C08,@line-of-index] result.Line == lineOf(f.content.data.arr, f.content.data.off, len(f.content.data), i)
+//@   ensures[C07,C08,C03,@line-of-index] result.Line == lineOf(f.content.data.arr, f.content.data.off, len(f.content.data), i)
 //@       && result.Column == colOf(f.content.data.arr, f.content.data.off, len(f.content.data), i)
 
 // "an index inside that file": the C07 clause is i < len; i == len does not panic (C01) but is not inside the file.
@@ -59,7 +59,7 @@ package jerr
 //@   ensures result.Msg == msg && result.File == f && result.Index == i
 //@   ensures len(result.includeTrace) == 0 && result.wrapped == nil
 //@   ensures imp(i < len(f.content.data), result.Line >= 1 && result.Column >= 1)
-//@   ensures[C07,C08,@line-of-index] result.Line == lineOf(f.content.data.arr, f.content.data.off, len(f.content.data), i)
+//@   ensures[C07,C08,C03,@line-of-index] result.Line == lineOf(f.content.data.arr, f.content.data.off, len(f.content.data), i)
 //@       && result.Column == colOf(f.content.data.arr, f.content.data.off, len(f.content.data), i)
 
 //@ func (*JApiError).OccurredInFile(e, f, atByte)
